@@ -175,21 +175,26 @@ type simRep struct {
 	dead    bool // poisoned by an undecodable op: stop applying on it
 }
 
-func genFSMCase(r *common.Rng, k int, tier string) (int, []op, []string) {
+func genFSMCase(r *common.Rng, k int, tier string) (string, int, []op, []string) {
 	maxOps := 30
 	if tier == "thorough" {
 		maxOps = 60
 	}
 	family := k % 10
+	fsm := func(n int, ops []op, ev []string) (string, int, []op, []string) { return "fsm", n, ops, ev }
 	switch {
 	case family == 0:
-		return genSystematic(r, k/10)
+		return fsm(genSystematic(r, k/10))
 	case family == 1:
-		return genLatePersist(r)
-	case family == 2 && (k/10)%2 == 0:
-		return genOrigins(r)
+		return fsm(genLatePersist(r))
+	case family == 2 && (k/10)%4 == 0:
+		// raw log entries the FSM cannot decode, fed past commit(): robustness only
+		n, ops, ev := genOrigins(r)
+		return "fsmraw", n, ops, ev
+	case family == 2 && (k/10)%4 == 2:
+		return fsm(genGated(r))
 	case family == 2:
-		return genBurst(r)
+		return fsm(genBurst(r))
 	}
 	n := r.Range(1, 3)
 	nops := r.Range(0, maxOps)
@@ -197,7 +202,30 @@ func genFSMCase(r *common.Rng, k int, tier string) (int, []op, []string) {
 		nops = r.Range(0, 3)
 	}
 	ops := genOps(r, nops, 4)
-	return n, ops, randomWalk(r, n, len(ops), r.Range(0, 3*len(ops)+6), false, r.Chance(3, 4))
+	if r.Chance(1, 5) {
+		// some submissions are refused by commit(): they are not part of the committed sequence
+		ops = sprinkle(r, ops, r.Range(1, 2))
+	}
+	return fsm(n, ops, randomWalk(r, n, nops, r.Range(0, 3*nops+6), false, r.Chance(3, 4)))
+}
+
+// sprinkle inserts k operations commit() refuses (origins, reference to cid.Undef, no cid) at random places.
+func sprinkle(r *common.Rng, ops []op, k int) []op {
+	for j := 0; j < k; j++ {
+		at := r.Intn(len(ops) + 1)
+		ops = append(ops[:at], append([]op{undecodableOp(r)}, ops[at:]...)...)
+	}
+	return ops
+}
+
+// genGated: submitted histories in which 1-3 operations cannot be decoded: LogPin / LogUnpin refuse them
+// with an error, the others are committed and every replica catches up with exactly those.
+func genGated(r *common.Rng) (int, []op, []string) {
+	n := r.Range(1, 3)
+	ops := genOps(r, r.Range(1, 12), 2)
+	nd := len(ops)
+	ops = sprinkle(r, ops, r.Range(1, 3))
+	return n, ops, randomWalk(r, n, nd, r.Range(2, 3*nd+6), false, true)
 }
 
 // randomWalk draws events, tracking just enough to keep most of them enabled.
@@ -401,7 +429,8 @@ func genLatePersist(r *common.Rng) (int, []op, []string) {
 	return 2, ops, ev
 }
 
-// undecodableOp draws an op no replica can decode: origins (K01a), a reference to cid.Undef, no cid (K01b).
+// undecodableOp draws an op no replica can decode: origins, a reference to cid.Undef, no cid.
+// Since /repo 3d753d4 commit() refuses all three.
 func undecodableOp(r *common.Rng) op {
 	c := r.Intn(cidUniverse)
 	switch r.Intn(4) {
@@ -415,8 +444,8 @@ func undecodableOp(r *common.Rng) op {
 	return op{pin: r.Chance(4, 5), tok: randPin(r, c, r.Range(1, 2), false)}
 }
 
-// genOrigins: the LAST op carries origins (known finding K01a): nothing can be applied after it on
-// the same FSM instance without crashing the process.
+// genOrigins (kind fsmraw): the LAST log entry cannot be decoded; nothing can be applied after it on
+// the same FSM instance without crashing the process. Not reachable through commit() since 3d753d4.
 func genOrigins(r *common.Rng) (int, []op, []string) {
 	n := r.Range(1, 2)
 	ops := genOps(r, r.Range(0, 10), 0)
@@ -467,12 +496,16 @@ func genBurst(r *common.Rng) (int, []op, []string) {
 	if r.Chance(1, 2) {
 		code = "S"
 	}
+	nc := len(ops)
+	if r.Chance(1, 3) {
+		ops = sprinkle(r, ops, 1) // a refused submission between them changes nothing
+	}
 	var ev []string
 	done := 0
-	for done < len(ops) {
+	for done < nc {
 		step := r.Range(1, 4)
-		if done+step > len(ops) {
-			step = len(ops) - done
+		if done+step > nc {
+			step = nc - done
 		}
 		done += step
 		if step == 1 && r.Bool() {
